@@ -173,7 +173,11 @@ Firsts == {S(<<>>, 0, 0), S(<<"L">>, 0, 0), S(<<"L", "W">>, 0, 0), S(<<"L", "L",
            S(<<"W", "E", "L">>, 1, 0), S(<<"H", "Lo">>, 0, 0), S(<<"L", "H", "Lo">>, 0, 1),
            S(<<"E", "L">>, 2, 5), S(<<"L", "W">>, 1, 1), S(<<>>, 1, 0), S(<<"H", "Lo", "L">>, 2, 0)}
 Seconds == {S(<<"L">>, 0, 0), S(<<"W", "L">>, 1, 5)}
+\* empty strings at the first (Firsts), a middle and the last index, followed by strings that cells refer to
+Empties == {S(<<>>, 0, 0), S(<<>>, 0, 1)}
 T_quick == {<<a>> : a \in Firsts} \cup {<<a, b>> : a \in Firsts, b \in Seconds}
+           \cup {<<a, e, b>> : a \in {S(<<"L", "W">>, 0, 0), S(<<"H", "Lo">>, 1, 0)}, e \in Empties, b \in Seconds}
+           \cup {<<a, e>> : a \in {S(<<"L", "W">>, 1, 1)}, e \in Empties}
 Thirds == {S(<<"E">>, 0, 0), S(<<>>, 0, 0)}
 Firsts4 == {S(<<"L", "W", "L", "L">>, 0, 0), S(<<"L", "H", "Lo", "W">>, 1, 1), S(<<"H", "Lo", "H", "Lo">>, 0, 0),
             S(<<"E", "L", "W", "L">>, 2, 5)}
